@@ -232,8 +232,8 @@ static void build_catalogue() {
     ADD("arange(float)", "(0,1,0.25)/(1,0,-0.5)/(0,1,-0.5)", keep(arange(0.0, 1.0, 0.25)); keep(arange(1.0, 0.0, -0.5)); keep(arange(0.0, 1.0, -0.5)));
     for (int n : {1, 2, 3, 7}) ADD("linspace/zeros/ones", fmt("n=%d", n), keep(linspace(0, 1, (size_t)n)); keep(zeros(n)); keep(ones(n)); keep(zeros(0)));
     ADD("to_complex", "odd/even", keep(to_complex(std::vector<double>{1, 2, 3, 4})); keep(to_complex(std::vector<double>{1, 2, 3})));
-    for (uint32_t v : {0u, 1u, 2u, 3u, 4u, 97u, 65536u, 65537u, 1000003u})
-        ADD("primes helpers", fmt("%u", v), keep((double)isprime(v)); keep(factor(v)); keep((double)nextprime(v)); if (v < 100000) keep(primes(v)));
+    for (uint32_t v : {0u, 1u, 2u, 3u, 4u, 97u, 65536u, 65537u, 1000003u, 4293001441u, 4294967231u, 4294967291u, 4294967295u})
+        ADD("primes helpers", fmt("%u", v), keep((double)isprime(v)); keep(factor(v)); if (v <= 4294967291u) keep((double)nextprime(v)); if (v < 100000) keep(primes(v)));
     for (int m : {1, 2, 3, 7, 8, 64, 1 << 30, 0x7fffffff}) ADD("nextpow2/ispow2", fmt("%d", m), keep((double)nextpow2(m)); keep((double)ispow2(m)));
     // ======================================================================== transforms: plans applied to another length
     for (int n : {1, 2, 4, 8, 16, 3, 7, 13, 53, 12, 30, 45})
